@@ -154,7 +154,8 @@ pub enum Tmo {
 pub enum Op {
     /// HTTP long-poll on 1..4 distinct keys
     Listen { items: Vec<(u16, Held)>, tmo: Tmo },
-    /// n long-polls on one key, all holding the current md5, deadlines now+base_ms, +1, +2, ...
+    /// n long-polls on one key (2..12, or 62..89: more than 64 registrations on one key), all holding the current md5, deadlines
+    /// now+base_ms, +1, +2, ... (base_ms >= 10 s: far deadlines)
     ListenBurst { key: u16, n: u8, base_ms: u16 },
     /// new bi-directional stream for client slot `client` (an existing one is closed first: a reconnect
     /// comes from a new source port = new connection id)
@@ -213,7 +214,7 @@ fn tmo_strategy() -> impl Strategy<Value = Tmo> {
 fn op_strategy() -> impl Strategy<Value = Op> {
     prop_oneof![
         7 => (items_strategy(), tmo_strategy()).prop_map(|(items, tmo)| Op::Listen { items, tmo }),
-        1 => (any::<u16>(), 2u8..13, 20u16..200).prop_map(|(key, n, base_ms)| Op::ListenBurst { key, n, base_ms }),
+        1 => (any::<u16>(), prop_oneof![4 => 2u8..13, 2 => 62u8..90], prop_oneof![3 => 20u16..200, 2 => Just(30_000u16)]).prop_map(|(key, n, base_ms)| Op::ListenBurst { key, n, base_ms }),
         2 => (0u8..NCLIENT, 0u8..4).prop_map(|(client, declared)| Op::Connect { client, declared }),
         1 => (0u8..NCLIENT).prop_map(|client| Op::Disconnect { client }),
         5 => (0u8..NCLIENT, items_strategy()).prop_map(|(client, items)| Op::Subscribe { client, items }),
@@ -989,10 +990,16 @@ impl Run {
                 let k = pick_idx(*key, KEYS.len());
                 let cur = self.cur_md5(k).await?;
                 let now = now_ms();
+                // base_ms >= 10 s stands for "far" deadlines (never reached inside the case)
+                let far = *base_ms >= 10_000;
                 for i in 0..(*n as i64) {
-                    self.listen(opi, vec![(k, cur.clone())], now + *base_ms as i64 + i, false).await?;
+                    let deadline = if far { now + FAR_MS + i } else { now + *base_ms as i64 + i };
+                    self.listen(opi, vec![(k, cur.clone())], deadline, far).await?;
                 }
                 self.label("listen_burst");
+                if *n > 64 {
+                    self.label("more_than_64_listeners_registered_on_one_key");
+                }
                 Ok(())
             }
             Op::Connect { client, declared } => self.connect(*client % NCLIENT, *declared).await,
